@@ -44,7 +44,7 @@ def generate(rng, tier, index):
         triples = gen.gen_schema_graph(rng, n_nodes=n_nodes, n_classes=rng.randint(1, 3), n_props=rng.randint(1, 4), bnodes=bn)
     else:
         triples = gen.gen_graph(rng, n_nodes=n_nodes, n_classes=rng.randint(1, 3), n_props=rng.randint(1, 5), bnodes=bn,
-                                density=rng.choice([0.4, 0.6, 0.9]))
+                                density=rng.choice([0.4, 0.6, 0.9]), kinds=("node", "str", "int", "lang", "date", "iri", "iri2"))
     tp = gen.CUSTOM_TYPE if rng.random() < 0.12 else gen.RDF_TYPE
     triples = gen.retype(gen.ensure_class(triples), tp)
     family = "store" if rng.random() < 0.5 else "document"
@@ -57,7 +57,9 @@ def generate(rng, tier, index):
     labels = sorted({t[1] for tr in triples for t in (tr[0], tr[2]) if t[0] == "b"})
     relabel = {}
     if labels and rng.random() < 0.8:
-        new = ["_:z%d" % i for i in range(len(labels))]
+        # legal label characters beyond [A-Za-z0-9_]: '-' and an inner '.' (genid / skolem style labels)
+        style = rng.choice(["_:z%d", "_:z%d", "_:genid-%d", "_:n.%dx", "_:b_%d-a.b"])
+        new = [style % i for i in range(len(labels))]
         rng.shuffle(new)
         relabel = dict(zip(labels, new))
     n = len(triples)
@@ -248,6 +250,7 @@ def shrink(scen):
             c = copy.deepcopy(scen)
             c["graph"] = [t for i, t in enumerate(g) if i not in drop]
             c["orders"] = [[_project(p1, drop), _project(p2, drop)] for (p1, p2) in scen["orders"]]
+            c["schema"] = False      # a sub-graph of a schema-consistent graph is not schema-consistent
             yield c
         size //= 2
     for key in sorted(scen["options"]):
